@@ -159,11 +159,21 @@ def r_leg_link(ck: Checker) -> None:
             raise Unsupported("_attach_inner: child link / registration not recognised", ai.node)
 
     rc = ck.repo.func(LNODE, f"{CLS}._replace_child")
+    osq_txt0 = "getattr(self, field.name)"
     seqs = [norm(st.targets[0]) for st in walk_body(rc.node.body) if isinstance(st, ast.Assign) and isinstance(st.targets[0], ast.Name)
             and norm(st.value) == "getattr(self, field.name)"]
     if len(set(seqs)) != 1:
         raise Unsupported("_replace_child: the local holding the original sequence (getattr(self, field.name)) was not identified", rc.node)
     osq = seqs[0]
+    # the sequence object held by the node is never edited in place: it is the object the caller handed to the constructor (and may be
+    # held by other nodes made with dataclasses.replace); the sibling renumbering below reads it as it was before the change
+    INPLACE = ("pop", "insert", "remove", "append", "extend", "clear", "reverse", "sort", "__setitem__", "__delitem__")
+    for x in ast.walk(rc.node):
+        if (isinstance(x, ast.Subscript) and isinstance(x.ctx, (ast.Store, ast.Del)) and norm(x.value) in (osq, osq_txt0)) or \
+                (isinstance(x, ast.Call) and isinstance(x.func, ast.Attribute) and x.func.attr in INPLACE and norm(x.func.value) in (osq, osq_txt0)):
+            ck.violation("R-LEG-LINK", rc, x, "_replace_child builds a new sequence and stores it; the sequence object held by the node is not edited in place", positive=True,
+                         construct=f"_replace_child: {norm(x)[:50]} edits the child sequence in place — the siblings behind a removed child are then read from the already shortened sequence, and every other holder of that list sees the change")
+            return
     leaves = decision_tree([st for st in strip_docstring(rc.node.body) if not (isinstance(st, ast.If) and "_reset_content_id" in norm(st))], max_atoms=6)
     bad = []
     k_idx, k_new = k_none("index"), k_none("new")
@@ -332,6 +342,41 @@ def _continuation(fn: ast.FunctionDef, target: ast.stmt) -> list[ast.stmt]:
     return r
 
 
+def r_leg_swap_uncond(ck: Checker) -> None:
+    """replace / replace_with hand the new node to the parent (`parent._replace_child(self, field, index, new)`): that call is what stores
+    the new object in the parent's field.  Positive pattern: the call sits under a condition that compares the two nodes (content_id / id /
+    ==): on the other branch the parent keeps holding the old, unregistered object while the new one claims to be its child."""
+    n = 0
+    for q in ("replace", "replace_with"):
+        f = ck.repo.func(LNODE, f"{CLS}.{q}")
+        fn = f.node
+        parent = {id(c): p_ for p_ in ast.walk(fn) for c in ast.iter_child_nodes(p_)}
+        for c in ast.walk(fn):
+            if not (isinstance(c, ast.Call) and isinstance(c.func, ast.Attribute) and c.func.attr == "_replace_child" and norm(c.func.value) != "self"):
+                continue
+            n += 1
+            what = f"{CLS}.{q}: the parent's field is rewritten whenever the node has a parent (not only when the two nodes differ in content)"
+            bad = None
+            x: ast.AST = c
+            while id(x) in parent:
+                up = parent[id(x)]
+                if isinstance(up, ast.If) and x is not up.test:
+                    t = up.test
+                    attrs = {a.attr for a in ast.walk(t) if isinstance(a, ast.Attribute)}
+                    cmp_nodes = any(isinstance(k, ast.Compare) and any(isinstance(o, (ast.Eq, ast.NotEq)) for o in k.ops)
+                                    and not any(isinstance(z, ast.Constant) for z in [k.left] + k.comparators) for k in ast.walk(t))
+                    if attrs & {"content_id", "id"} and cmp_nodes:
+                        bad = norm(t)[:60]
+                x = up
+            if bad:
+                ck.violation("R-LEG-LINK", f, c, what, positive=True,
+                             construct=f"{CLS}.{q}: {norm(c)[:60]} only under `{bad}` — otherwise the parent still stores the old node at that position")
+            else:
+                ck.holds("R-LEG-LINK", f, c, what)
+    if n == 0:
+        ck.incomplete("R-LEG-LINK", None, None, "no hand-over to the parent (`parent._replace_child(...)`) found in replace / replace_with (2 confirmed by hand)")
+
+
 def r_leg_rekey(ck: Checker) -> None:
     """Children name their parent by *id*: when the id of an existing node V is rewritten, the children of V must be pointed at the
     new id (V._attach / V.attach / V._attach_inner do it, or an explicit loop) on every path that completes normally."""
@@ -466,6 +511,7 @@ def run(ck: Checker) -> None:
     ck.guard("R-LEG-PROPAGATE", lambda: r_leg_propagate(ck))
     ck.guard("R-LEG-LINK", lambda: r_leg_link(ck))
     ck.guard("R-LEG-LINK", lambda: r_leg_rekey(ck))
+    ck.guard("R-LEG-LINK", lambda: r_leg_swap_uncond(ck))
     ck.guard("R-LEG-IDENT", lambda: r_leg_live_links(ck))
     ck.guard("R-LEG-DIGEST", lambda: r_leg_digest(ck))
     from .c20 import r_legacy_presence, r_xpath_spell
